@@ -32,9 +32,31 @@ def shards(tier, seed):
     return [(tier, tag) for tag in G.ALL_TAGS] + [(tier, "@parts")]
 
 
+LONG_FREE = "The quick brown fox jumps over the lazy dog. " * 3  # 135 characters
+LONG_B64 = "QUJDREVGR0hJSktMTU5PUFFSU1RVVldYWVo=" * 4 + "QUJD"  # 148 characters of base64
+
+
+def late_variants(v):
+    """values of the same length as v that differ from it in one character only: in the middle, near the end, last"""
+    out = []
+    for pos in (len(v) // 2, len(v) - 9, len(v) - 1):
+        c = "x" if v[pos] != "x" else "y"
+        out.append(v[:pos] + c + v[pos + 1 :])
+    return out
+
+
 def perturbations(desc, tier):
     tag, attrs, text, children = desc
     k = G.KINDS[tag]
+    # a long value against the same value with ONE character changed far from its beginning (same length): what a
+    # comparison through an abbreviated, hashed or truncated rendering would miss
+    for path, kind in G.slots(desc):
+        if kind in (G.K_FREE, G.K_B64) and path[0] in ("t", "ct", "a", "ca"):
+            base = LONG_B64 if kind == G.K_B64 else LONG_FREE
+            where = path[0] + ("@" + ("last" if path[1] == len(children) - 1 else "index<last") if path[0] in ("ca", "ct") else "")
+            d_long = G.with_slot(desc, path, base)
+            for v in late_variants(base):
+                yield "long-value-differs-late:" + where, (d_long, G.with_slot(desc, path, v))
     # slot changes
     for path, kind in G.slots(desc):
         cur = G.get_slot(desc, path)
@@ -193,7 +215,12 @@ def run_shard(shard):
         if not (a == c) or (a != c) or not (c == a):
             viol("copy-compares-unequal", "rebuilt-copy", repr(desc), {"kind": "copy", "desc": desc})
         for label, pd in perturbations(desc, tier):
+            left_desc, left = desc, a
+            if label.startswith("long-value"):
+                left_desc, pd = pd  # both sides are given
             try:
+                if left_desc is not desc:
+                    left = lib.build(left_desc)
                 b = lib.build(pd)
             except Exception:
                 C["unbuildable"] = C.get("unbuildable", 0) + 1
@@ -201,14 +228,44 @@ def run_shard(shard):
             res["evaluations"] += 1
             res["pairs_unequal"] += 1
             C[label.split("@")[0].split(":")[0]] = C.get(label.split("@")[0].split(":")[0], 0) + 1
-            bad = compare(a, b)
+            bad = compare(left, b)
             if bad:
                 viol(
                     "perturbed-compares-equal",
                     label,
-                    "%s: %r vs %r" % (",".join(bad), desc, pd),
-                    {"kind": "pair", "a": desc, "b": pd, "label": label},
+                    "%s: %r vs %r" % (",".join(bad), left_desc, pd),
+                    {"kind": "pair", "a": left_desc, "b": pd, "label": label},
                 )
+        # equality is a property of the content, not of what has been done with the objects: a copy that has been
+        # serialised / rendered / hashed / parsed back still equals a fresh one (both operand orders)
+        used = lib.build(desc)
+        fresh = lib.build(desc)
+        ops_done = []
+        for opname, op in (("to_string", lambda m: m.to_string()), ("to_dict", lambda m: m.to_dict()), ("repr", lambda m: repr(m)), ("str", lambda m: str(m)), ("to_xml", lambda m: m.to_xml())):
+            try:
+                op(used)
+                ops_done.append(opname)
+            except Exception:
+                continue
+            res["evaluations"] += 1
+            res["pairs_equal"] += 1
+            C["used-copy"] = C.get("used-copy", 0) + 1
+            if not (used == fresh) or not (fresh == used) or (used != fresh) or (fresh != used):
+                viol("copy-compares-unequal", "after-" + opname, "%r: a copy on which %s was called no longer equals a fresh one" % (desc, "+".join(ops_done)), {"kind": "used", "desc": desc, "ops": list(ops_done)})
+                break
+        try:
+            import indi.message as M
+
+            back = M.IndiMessage.from_string(lib.build(desc).to_string())
+        except Exception:
+            back = None  # not this property's business (C03)
+        if back is not None:
+            res["evaluations"] += 1
+            res["pairs_equal"] += 1
+            C["parsed-copy"] = C.get("parsed-copy", 0) + 1
+            plain = desc[2] != "" and all(ct != "" and (ct is None or ct == ct.strip()) for _, _, ct in desc[3])  # "" reads back as absent (C03's normalisation)
+            if plain and G.KINDS[desc[0]].text is None and all(v == str(v) for _, v in desc[1]) and (not (back == fresh) or not (fresh == back) or (back != fresh)):
+                viol("copy-compares-unequal", "parsed-back", "%r: the message parsed from its own serialisation does not equal a fresh copy" % (desc,), {"kind": "parsed", "desc": desc})
         if tier == "thorough":
             # two-point perturbations and value exchanges: edits that cancel in an order-, position- or
             # multiset-insensitive comparison.  Demanded unequal only when the normal forms differ.
@@ -285,6 +342,19 @@ def replay(rep):
         bad = compare(a, b)
         if bad:
             out.append({"clause": "perturbed-compares-equal", "disc": rep["label"], "what": ",".join(bad)})
+    elif rep["kind"] == "used":
+        used, fresh = lib.build(_t(rep["desc"])), lib.build(_t(rep["desc"]))
+        for opname in rep["ops"]:
+            getattr(used, opname)() if opname in ("to_string", "to_dict", "to_xml") else (repr(used) if opname == "repr" else str(used))
+        if not (used == fresh) or not (fresh == used) or (used != fresh):
+            out.append({"clause": "copy-compares-unequal", "disc": "after-" + rep["ops"][-1], "what": ""})
+    elif rep["kind"] == "parsed":
+        import indi.message as M
+
+        fresh = lib.build(_t(rep["desc"]))
+        back = M.IndiMessage.from_string(lib.build(_t(rep["desc"])).to_string())
+        if not (back == fresh) or not (fresh == back) or (back != fresh):
+            out.append({"clause": "copy-compares-unequal", "disc": "parsed-back", "what": ""})
     elif rep["kind"] == "copy":
         a, b = lib.build(_t(rep["desc"])), lib.build(_t(rep["desc"]))
         if not (a == b) or (a != b):
